@@ -132,6 +132,7 @@ type FuncContract struct {
 	File     string
 	Panics   []*Clause // panics_if: conditions under which explicit panic is the documented behaviour
 	ModAll   bool     // "modifies anything"
+	TextOps  bool     // append also states its effect on texts (opt-in: costs quantifiers)
 	Opaque   []string // callee names to treat as havoc (explicitly abstracted), listed in evidence
 	Ghost    map[string]string
 	Pure     bool // function has no side effects (modifies nothing)
@@ -734,6 +735,8 @@ func parseContractLines(pkg, file string, lines []rawLine) (*ContractFile, error
 					fc.Inline = true
 				case "wraps":
 					fc.Wraps = true
+				case "textops":
+					fc.TextOps = true
 				case "nosweep":
 					fc.NoSweep = true
 				case "pure":
